@@ -14,4 +14,11 @@ PROPS = {
                     technique="property-based differential testing (rapid) against an independent layout table; native coverage-guided fuzzing in the thorough tier",
                     text="Generated messages of all 24 types (boundary-length strings, all enum bytes, full-range ids, both result codes, over-long error texts) are encoded by the real codec and compared byte for byte with an independent statement of the Seata v1 layout, decoded both ways and checked for full consumption; the registration/type-code table is enumerated completely. Sampling, not proof: absence of a counter-example among the generated values.",
                     note="Trusted: harness/refwire (layout table written from knowledge of the Java reference codecs, which cannot be fetched offline).")),
+    "C13": dict(pkg="./props/c13", level="exploration",
+                quick=dict(checks=1500, shards=2, watchdog=600, env=dict(C13_EXH=25)),
+                thorough=dict(checks=20000, shards=16, watchdog=3000, env=dict(C13_EXH=300), fuzz=[("FuzzFrames", "180s")]),
+                manifest=dict(engine="refwire",
+                    technique="property-based testing over message sequences and stream partitions (exhaustive 1-/2-cut partitions for short streams) through a transcribed getty read loop; native fuzzing in the thorough tier",
+                    text="Generated frame sequences (real Write and an independent framer) are cut at every 1-/2-cut position (streams ≤96 bytes) or at generated positions biased into headers and head maps, and pushed through a transcription of getty's handleTCPPackage loop around the real reader; delivered messages, consumed lengths, delivery time, leftovers, errors, panics and zero-length consumption (spin) are judged; garbage and corrupted streams are judged for panic/spin only. Sampling plus small exhaustive sub-spaces.",
+                    note="Trusted: the transcription of getty 1.5.0's read loop (feed()), harness/refwire framer.")),
 }
